@@ -66,6 +66,7 @@ Definition op_denom (o : op) : string :=
   match o with
   | Create sender sub => tf_denom sender sub
   | Mint _ d _ _ _ | Burn _ d _ _ _ | ChangeAdmin _ d _ _ | SetMeta _ d _ | BurnNative _ d _ _ => d
+  | Reimport => EmptyString
   end.
 
 (** an accepted admin-only message was signed by the admin on record before it, and an accepted
@@ -81,6 +82,9 @@ Definition authority_ok (prev cur : snap) (o : op) : Prop :=
 Definition step_P (strict : bool) (blocked : list string) (prev : snap) (o : op) (ok : bool) (cur : snap) : Prop :=
   (* a rejected message changes nothing *)
   (ok = false -> cur = prev) /\
+  (* the property holds ACROSS a genesis export / import round trip: it moves no supply, no balance
+     and no admin (renounced stays renounced, an admin without an account stays the admin) *)
+  (o = Reimport -> cur = prev) /\
   (* accepted admin-only messages come from the admin on record; a hand-over installs the successor *)
   (ok = true -> authority_ok prev cur o) /\
   (* supply of any tracked denom moves only by an admin-signed mint / burn, by the stated amount *)
@@ -107,7 +111,7 @@ Definition step_P (strict : bool) (blocked : list string) (prev : snap) (o : op)
 (** Transactions of several messages.  [first_admin_op d tx]: the first message of the tx that needs
     (or establishes) authority over denom [d]. *)
 Definition needs_authority (o : op) : bool :=
-  match o with BurnNative _ _ _ _ => false | _ => true end.
+  match o with BurnNative _ _ _ _ | Reimport => false | _ => true end.
 
 Fixpoint first_admin_op (d : string) (tx : list op) : option op :=
   match tx with
@@ -252,6 +256,7 @@ Definition authority_ok_b (prev cur : snap) (o : op) : bool :=
 
 Definition step_Pb (strict : bool) (blocked : list string) (prev : snap) (o : op) (ok : bool) (cur : snap) : bool :=
   (ok || snap_eqb cur prev) &&
+  (match o with Reimport => snap_eqb cur prev | _ => true end) &&
   (negb ok || authority_ok_b prev cur o) &&
   forallb (fun e : string * Z => let '(d, v') := e in
              match lookup d (sn_supply prev) with
@@ -382,10 +387,11 @@ Qed.
 
 Lemma step_Pb_sound strict blocked prev o ok cur : step_Pb strict blocked prev o ok cur = true -> step_P strict blocked prev o ok cur.
 Proof.
-  unfold step_Pb, step_P. rewrite !andb_true_iff. intros [[[[[[H1 Hau] H2] H3] H4] H5] H6].
+  unfold step_Pb, step_P. rewrite !andb_true_iff. intros [[[[[[[H1 Hri] Hau] H2] H3] H4] H5] H6].
   rewrite forallb_forall in H2, H3, H5, H6.
-  split; [|split; [|split; [|split; [|split; [|split]]]]].
+  split; [|split; [|split; [|split; [|split; [|split; [|split]]]]]].
   - intro Hk. subst ok. simpl in H1. apply snap_eqb_eq. exact H1.
+  - intro Ho. subst o. apply snap_eqb_eq. exact Hri.
   - intro Hk. subst ok. simpl in Hau. apply authority_ok_b_sound. exact Hau.
   - intros d v' Hin. specialize (H2 _ Hin). simpl in H2.
     destruct (lookup d (sn_supply prev)) as [v|]; try discriminate. exists v. split; auto.
